@@ -55,7 +55,7 @@ def shards(tier):
 
 def floors(tier):
     f = {"cases": 15000, "cases_with_errors": 4000, "arrangements": 3000, "chains": 300, "inner_store_refs": 100,
-         "siblings_next_to_ref": 300, "hostile_name_resolutions": 2000, "recursive_cases": 1000, "recursive_with_asserting_siblings": 300, "near_identical_url_cases": 2000,
+         "siblings_next_to_ref": 300, "hostile_name_resolutions": 2000, "recursive_cases": 1000, "recursive_with_asserting_siblings": 300, "near_identical_url_cases": 2000, "retrieval_uri_cases": 400,
          "recursion_depth3plus": 200, "model_crosschecks": 2000, "max_scope_depth": 3, "transform_selfcheck_ok": 3000, "foreign_id_keywords_on_path": 500, "relative_id_in_store_doc": 200, "reused_after_validate": 5000,
          "uri_calibration": 60}
     for m in ("noid", "rootid", "rootid#", "nested"):
@@ -65,16 +65,20 @@ def floors(tier):
     return f
 
 
-def make_resolver(d, S, store, handler_docs):
+def make_resolver(d, S, store, handler_docs, retrieved_from=None):
     def handler(url):
         doc_url = url.split("#")[0]
         return handler_docs[doc_url]
+    if retrieved_from is not None:
+        # the caller says where the document came from (what the CLI's --base-uri does); the root's own id is applied
+        # on top of that by the validator
+        return RefResolver(retrieved_from, S, store=dict(store), handlers={"vf": handler})
     return RefResolver.from_schema(S, id_of=impl.CLS[d].ID_OF, store=dict(store), handlers={"vf": handler})
 
 
-def run_S(d, S, store, handler_docs, inst):
+def run_S(d, S, store, handler_docs, inst, retrieved_from=None):
     cls = impl.CLS[d]
-    resolver = make_resolver(d, S, store, handler_docs)
+    resolver = make_resolver(d, S, store, handler_docs, retrieved_from)
     try:
         errs = list(cls(S, resolver=resolver).iter_errors(inst))
         return "ok", locs(errs), resolver
@@ -92,7 +96,7 @@ def compare(ctx, d, S, S0, store, handler_docs, inst, info, mech=None, model=Tru
     if st0 != "ok":
         ctx.count("skipped_s0_not_ok")
         return
-    st, l, resolver = run_S(d, S, store, handler_docs, inst)
+    st, l, resolver = run_S(d, S, store, handler_docs, inst, retrieved_from=info.get("retrieved_from"))
     ctx.count("cases")
     ctx.case([d, S, store, inst], nontrivial=S != S0)
     if l0:
@@ -109,7 +113,7 @@ def compare(ctx, d, S, S0, store, handler_docs, inst, info, mech=None, model=Tru
     # still referenced) and after is_valid(), the same validator must give the same locations again
     if l0 and info.get("refs"):
         cls = impl.CLS[d]
-        V = cls(S, resolver=make_resolver(d, S, store, handler_docs))
+        V = cls(S, resolver=make_resolver(d, S, store, handler_docs, info.get("retrieved_from")))
         kept = None
         try:
             try:
@@ -223,6 +227,39 @@ def known_probes(ctx):
             compare(ctx, d, S, S0, {}, {}, inst, {"probe": "own id keyword next to $ref"}, mech=OWN_ID_MECH, model=False)
 
 
+def retrieval_uri_cases(ctx):
+    """The resolver is told where the document was retrieved from, and that is not the root's id: the base in effect in
+    the root document is the root id resolved against the retrieval URI (RFC 3986 5.1.1 over 5.1.3).  References with a
+    path part; a decoy document sits where the reference would lead if the root id were not applied."""
+    INT, STR = {"type": "integer"}, {"type": "string"}
+    for d in impl.DRAFTS:
+        idk = impl.IDKW[d]
+        both = "extends" if d == 3 else "allOf"
+        plans = [
+            # (retrieved from, root id, reference, URL of the target, URL of the decoy)
+            ("http://example.com/schemas/", "v2/root.json", "defs.json#/definitions/num", "http://example.com/schemas/v2/defs.json", "http://example.com/schemas/defs.json"),
+            ("http://example.com/schemas/start.json", "v2/root.json", "defs.json#/definitions/num", "http://example.com/schemas/v2/defs.json", "http://example.com/schemas/defs.json"),
+            ("http://mirror.example/checkout/root.json", "http://example.com/api/root.json", "types.json#/definitions/num", "http://example.com/api/types.json", "http://mirror.example/checkout/types.json"),
+            ("http://mirror.example/a/b/root.json", "/abs/root.json", "../defs.json#/definitions/num", "http://mirror.example/defs.json", "http://mirror.example/a/defs.json"),
+            ("http://example.com/schemas/", "v2/", "defs.json#/definitions/num", "http://example.com/schemas/v2/defs.json", "http://example.com/schemas/defs.json"),
+        ]
+        for retrieved, rid, ref, target, decoy in plans:
+            store = {target: {"definitions": {"num": INT}}, decoy: {"definitions": {"num": STR}}}
+            shapes = [{"properties": {"n": {"$ref": ref}}}, {"items": {"$ref": ref}}, {both: [{"$ref": ref}]},
+                      {"additionalProperties": {"$ref": ref}, "properties": {"m": {"items": [{"$ref": ref}]}}}]
+            for shape in shapes:
+                S = dict({idk: rid}, **shape)
+                try:
+                    S0 = R.inline(d, S, dict(store), base=retrieved)
+                except R.InlineError:
+                    ctx.count("transform_selfcheck_failed")
+                    continue
+                for inst in ({"n": "x"}, {"n": 3}, [1, "s"], 5, "s", {"m": ["q"], "z": 1}, {"z": "s"}):
+                    ctx.count("retrieval_uri_cases")
+                    compare(ctx, d, S, S0, store, {}, inst, {"probe": "retrieval URI differs from the root id", "retrieved_from": retrieved, "refs": 1},
+                            model=False)
+
+
 def near_identical_urls(ctx):
     """Two documents whose URLs differ only in the case of the path, a query string, a trailing slash or an escape are
     two documents: a reference to one is the schema written in THAT one."""
@@ -322,6 +359,8 @@ def run(ctx):
         known_probes(ctx)
     if ctx.shard == 1 % ctx.nshards:
         near_identical_urls(ctx)
+    if ctx.shard == 2 % ctx.nshards:
+        retrieval_uri_cases(ctx)
     slog = ScopeLog()
     slog.install()
     try:
